@@ -139,6 +139,15 @@ def _reciprocal_ops(ctx, rng):
             a = _qty.tok(rng, Fraction(rng.randint(1, 60), rng.choice([1, 2, 3])))
             k = _qty.kind_tok(rng, rng.choice([Fraction(1), Fraction(5, 2), Fraction(-7, 3), Fraction(12)]))
             ops.append(["q_num", "rdiv", f"{a}@{u}", k, MODE])
+        # products of a unit of the type with a unit of its reciprocal type: the
+        # dimensions cancel, the result is the plain number - also when the two
+        # scales multiply to exactly one (Hz * s, kHz * ms)
+        rc = ctx.class_with_dim(rd)
+        for u in ctx.linear_units(c):
+            for v in ctx.linear_units(rc):
+                if ctx.units[u]["scale"] * ctx.units[v]["scale"] == 1 or rng.random() < .1:
+                    ops.append(["uop", "mul", u, v])
+                    ops.append(["q_bin", "mul", f"3/2@{u}", f"4@{v}", MODE])
     return ops
 
 
